@@ -123,6 +123,7 @@ def run(F, R):
     e9_can_pop(F, R, M, by['can_pop'][0], lfield)
     e13_counter_accounting(F, R, M)
     e14_release_form(F, R, M)
+    release_rule(F, R, 'E15')
 
 
 def e8_helper_token(F, R, M, roles, rule='E8'):
@@ -300,6 +301,47 @@ def e14_release_form(F, R, M, rule='E14'):
                 'the indirect table of a chain is released without a test of the head descriptor\'s own flags (guards: %s): a directly submitted '
                 'chain on a queue with indirect descriptors enabled is released as if it had a table' % [fmt(g)[:50] for g in gs][:3])
     R.count('table_releases', len(seen))
+
+
+@shared_rule
+def release_rule(F, R, rule):
+    """E15 under any rule id.  A chain is released (descriptors recycled, buffers unshared, table freed) only for a completion that
+    matched: the release function - the one that decrements the in-use counter - is reached from the queue's public methods only
+    through the completion function that compares the used-ring id with the caller's token.  Any other route tears down a chain
+    the device may still own (e.g. "clean up" of an entry that has just been published)."""
+    M = model(F)
+    M.require_rings()
+    roles = C05.classify_api(C05.queue_api(F, M))
+    ctr = in_use_counter(F, M)
+    pops = set(k for k, v in roles.items() if v == 'pop_used')
+    if ctr is None or not pops:
+        raise Undecided('release function / completion function of the queue not found')
+    rel = set()
+    for b in F.bodies.values():
+        if b.get('impl_adt') != M.queue_adt or not F.handwritten(b) or b['kind'] != 'AssocFn' or b['id'] in pops:
+            continue
+        sg0 = supergraph(F, b['id'], tag='flat', max_depth=0)
+        for nd in sg0.nodes:
+            if nd.kind != 'assign' or not nd.d['place']['p'] or not isinstance(nd.d['place']['p'][-1], dict) or nd.d['place']['p'][-1].get('n') != ctr:
+                continue
+            v = sg0.sym.rvalue(nd.id, nd.d['rv'])
+            v = v[1] if v[0] == 'field' else v
+            if v[0] == 'bin' and v[1] in ('Sub', 'SubWithOverflow'):
+                rel.add(b['id'])
+    if not rel:
+        return      # the release is written inside the completion function itself
+    n = 0
+    for b in sorted(F.bodies.values(), key=lambda x: x['id']):
+        if b.get('impl_adt') != M.queue_adt or not F.handwritten(b) or b['kind'] != 'AssocFn' or not b.get('pub') or b['id'] in pops or b['id'] in rel or 'impl_trait' in b:
+            continue
+        sg = supergraph(F, b['id'], opaque=lambda t, bb: bb['id'] in pops or bb['id'] in rel or not (bb.get('impl_adt') == M.queue_adt and not bb.get('pub') and F.handwritten(bb)), tag='e15')
+        direct = [c for c in sg.calls(lambda d: d.get('fn') in rel)]
+        n += 1
+        R.check(not direct, rule, '%s:release-only-through-completion' % b['id'], site(sg, direct[0]) if direct else fn_site(F, b['id']),
+                'the release function is reached only through the token-checked completion function',
+                '%s releases a chain (%s) without going through the completion function that matches the used-ring id against the token: '
+                'a chain the device still owns is torn down' % (b['name'], direct[0].d['fn'].rsplit('::', 1)[1] if direct else ''))
+    R.count('release_routes', n)
 
 
 def in_use_counter(F, M):
